@@ -429,9 +429,16 @@ std::vector<Node::ControlEndpoint> Node::preferred_control_endpoints() const {
             return;
         }
         if (const auto parsed = parse_endpoint(self)) {
-            append(parsed->first, parsed->second, false);
+            if (network::is_publishable_auto_host(config_, parsed->first)) {
+                append(parsed->first, parsed->second, false);
+            }
         }
     };
+
+    // Auto-discovered endpoints follow --advertise-auto: none when off, none of a conflicting set in warn mode.
+    const bool publish_auto = config_.advertise_auto_mode == Config::AdvertiseAutoMode::On ||
+                              (config_.advertise_auto_mode == Config::AdvertiseAutoMode::Warn &&
+                               !config_.auto_advertise_conflict);
 
     if (!config_.advertised_endpoints.empty()) {
         for (const auto& endpoint : config_.advertised_endpoints) {
@@ -447,12 +454,14 @@ std::vector<Node::ControlEndpoint> Node::preferred_control_endpoints() const {
         }
     }
 
-    for (const auto& candidate : config_.auto_advertise_candidates) {
-        const auto port = candidate.port != 0 ? candidate.port : fallback_port;
-        append(candidate.host, port, false);
+    if (publish_auto) {
+        for (const auto& candidate : config_.auto_advertise_candidates) {
+            const auto port = candidate.port != 0 ? candidate.port : fallback_port;
+            append(candidate.host, port, false);
+        }
     }
 
-    if (transport_port != 0) {
+    if (publish_auto && transport_port != 0) {
         append_self_endpoint();
     }
 
